@@ -16,7 +16,7 @@ Oracle, evaluated on every transition (the snapshot comparison decides, nothing 
      and the (unique) content of an unsafe file entry does not appear anywhere in S.
 Mode bits of files created inside the work tree are informational counters only.
 A violating transition is re-run under a mutation tracer (engines/confine.py) only to *name* the
-dulwich function that issued the system call; the key is <function chain>:<predicate>:<entry point>.
+dulwich function that issued the system call; the key is <entry point>:<dulwich function>:<predicate>.
 """
 
 from __future__ import annotations
@@ -324,11 +324,9 @@ def initial_state(cfg, with_wt=True):
 TREE_OPS = ["checkout", "checkout_force", "switch", "reset_hard", "reset_mixed", "reset_soft", "stash_apply", "patch_add", "patch_del", "am"]
 PLAIN_OPS = ["reset_index", "stash_push", "stash_pop", "am_abort"]
 ENTRY = {
-    "clone": "porcelain.clone", "checkout": "porcelain.checkout", "checkout_force": "porcelain.checkout", "switch": "porcelain.switch",
-    "reset_hard": "porcelain.reset-hard", "reset_mixed": "porcelain.reset-mixed", "reset_soft": "porcelain.reset-soft",
-    "reset_index": "WorkTree.reset_index", "stash_push": "porcelain.stash_push", "stash_pop": "porcelain.stash_pop",
-    "stash_apply": "porcelain.stash_pop", "patch_add": "porcelain.apply_patch", "patch_del": "porcelain.apply_patch",
-    "am": "porcelain.am", "am_abort": "porcelain.am_abort",
+    "clone": "clone", "checkout": "checkout", "checkout_force": "checkout", "switch": "switch", "reset_hard": "reset-hard",
+    "reset_mixed": "reset-mixed", "reset_soft": "reset-soft", "reset_index": "reset_index", "stash_push": "stash_push",
+    "stash_pop": "stash_pop", "stash_apply": "stash_pop", "patch_add": "apply_patch", "patch_del": "apply_patch", "am": "am", "am_abort": "am_abort",
 }
 
 
@@ -548,13 +546,23 @@ def state_key(S, snapshot):
 # --------------------------------------------------------------------------- judge
 
 
+def collapse(p):
+    """The path with empty components removed (dulwich joins names with posixpath.join, which
+    swallows them) — only used to find where an entry with an unsafe path was put."""
+    return b"/".join(c for c in p.split(b"/") if c)
+
+
+def placeholder(p):
+    return b"gitdir: " + b"../" * (p.count(b"/") + 1) + b".git/modules/" + p + b"\n"
+
+
 def gitlink_placeholders(specs):
     """{path of X/.git: expected content} for every gitlink entry X of the given specs."""
     out = {}
     for spec in specs:
         for p, kind, _d in leaves(spec):
             if kind == "G":
-                out[p + b"/.git"] = b"gitdir: " + b"../" * (p.count(b"/") + 1) + b".git/modules/" + p + b"\n"
+                out[collapse(p) + b"/.git"] = placeholder(collapse(p))
     return out
 
 
@@ -572,8 +580,8 @@ def judge(cfg, specs, op, before, after):
     if d:
         rel, what = d[0]
         verb = {"created": "creates", "deleted": "deletes", "retyped": "replaces", "content": "overwrites", "target": "retargets", "mode": "chmods"}[what.split(":")[0]]
-        obj = {"f": "file", "d": "directory", "l": "symlink", "o": "special"}.get(what.split(":")[1][:1] if ":" in what else "", "")
-        where = "inside-gitdir" if region(rel) == "gitdir" else "outside-worktree"
+        obj = {"f": "file", "d": "dir", "l": "symlink", "o": "special"}.get(what.split(":")[1][:1] if ":" in what else "", "")
+        where = "in-gitdir" if region(rel) == "gitdir" else "outside-wt"
         pred = "%s-%s%s" % (verb, (obj + "-") if obj else "", where)
         return pred, "%s %r (%d protected entr%s changed: %s)" % (what, rel, len(d), "y" if len(d) == 1 else "ies", ", ".join("%s %r" % (w, r) for r, w in d[:4])), rel
     # 2. unsafe entries are refused
@@ -591,7 +599,7 @@ def judge(cfg, specs, op, before, after):
             continue  # the .git file of a submodule placeholder, as git itself writes it
         if any(pathsafety.unsafe(b"/".join(tp.split(b"/")[:i]), ntfs, hfs) for i in range(1, tp.count(b"/") + 1)):
             continue  # reported at the shallowest unsafe component
-        return "materialises-unsafe-name(%s)" % why, "%r exists in the work tree after the operation" % tp, rel
+        return "unsafe-name(%s)" % why, "%r exists in the work tree after the operation" % tp, rel
     cur = op[1]
     if cur is not None:
         bcontent = {(e[0], e[3]) for e in before if e[1] == "f"}
@@ -603,7 +611,13 @@ def judge(cfg, specs, op, before, after):
                 body = payload(p, k, depth)
                 for e in after:
                     if e[1] == "f" and e[3] == body and (e[0], e[3]) not in bcontent:
-                        return "materialises-entry-with-unsafe-path(%s)" % why, "content of entry %r (%s) written to %r" % (p, k, e[0]), e[0]
+                        return "unsafe-path(%s)" % why, "content of entry %r (%s) written to %r" % (p, k, e[0]), e[0]
+            elif k == "G":
+                cp = collapse(p)
+                rel = WT + b"/" + cp + b"/.git"
+                for e in after:
+                    if e[0] == rel and e[1] == "f" and e[3] == placeholder(cp) and rel not in bpaths:
+                        return "unsafe-path(%s)" % why, "submodule placeholder of entry %r created at %r" % (p, rel), rel
     return None
 
 
@@ -622,15 +636,18 @@ def history_specs(history):
     return [o[1] for o in history if o[1] is not None]
 
 
-def transition(acc, cfg, snapshot, history, op, S, diagnose=True):
-    """Restore snapshot into S, run op, judge.  Returns (after_snapshot, outcome) — after_snapshot is
-    None when the transition violated the property (successors are not explored)."""
-    confine.restore(snapshot, S)
+def transition(acc, cfg, snapshot, history, op, sb, diagnose=True):
+    """Bring the sandbox to `snapshot`, run op, judge.  Returns (after_snapshot, outcome) —
+    after_snapshot is None when the transition violated the property (successors are not explored)."""
+    S = os.fsdecode(sb.root)
+    sb.sync(snapshot)
+    sb.invalidate()
     prepare(S, op)
     # prepare() only touches allow-listed bookkeeping (objects/, refs/stash, its reflog) — except for clone (S/src)
     before = confine.snap(S) if op[0] == "clone" else snapshot
     res = perform(S, op)
     after = confine.snap(S)
+    sb.observed(after)
     acc.count("transitions")
     acc.count("op:" + op[0])
     specs = history_specs(history) + ([op[1]] if op[1] is not None else [])
@@ -649,6 +666,7 @@ def transition(acc, cfg, snapshot, history, op, S, diagnose=True):
         if op[0] == "clone":
             finish_clone(S)
             after = confine.snap(S)
+            sb.observed(after)
         elif op[0] == "stash_apply" and res != "ok":
             # a planted stash that could not be popped is withdrawn again (the menu can plant it again)
             for rel in (GITDIR + b"/refs/stash", GITDIR + b"/logs/refs/stash"):
@@ -660,12 +678,16 @@ def transition(acc, cfg, snapshot, history, op, S, diagnose=True):
                 elif os.path.lexists(p):
                     os.unlink(p)
             after = confine.snap(S)
+            sb.observed(after)
         return after, res
     pred, detail, focus = verdict
-    chain = "unattributed"
+    site, how = ("unattributed", "")
     if diagnose:
-        chain = attribute(S, snapshot, op, focus)
-    key = "%s:%s:%s" % (chain, pred, ENTRY[op[0]])
+        sb.invalidate()
+        site, how = attribute(S, snapshot, op, focus)
+    if how and not pred.startswith("unsafe-"):
+        pred += "-" + how
+    key = "%s:%s:%s" % (ENTRY[op[0]], site, pred)
     steps = list(history) + [op]
     acc.violation(key, "[%s] %s => %s; %s" % (cfg, " ; ".join(op_name(o) for o in steps), res, detail), rp("case_sequence", cfg, steps))
     return None, res
@@ -689,22 +711,27 @@ def attribute(S, snapshot, op, focus):
         perform(S, op)
     hits = [h for h in t.hits if h["effective"] == target] or t.hits
     if not hits:
-        return "unattributed"
+        return "unattributed", ""
     h = hits[0]
-    fr = [f for f in h["frames"] if not f.startswith("porcelain.open_repo")]
-    inner = fr[-2:] if len(fr) >= 2 else fr
-    if len(inner) == 2 and inner[0].rsplit(".", 1)[0] == inner[1].rsplit(".", 1)[0]:
-        chain = inner[0] + ">" + inner[1].rsplit(".", 1)[1]
-    else:
-        chain = ">".join(inner)
-    return "%s[%s,%s]" % (chain or "unattributed", h["call"], h["how"])
+    names = [f.rsplit(".", 1)[1] for f in h["frames"]]
+    alias = None
+    while len(names) > 1 and names[-1] in GENERIC:
+        alias = GENERIC[names.pop()]
+    site = names[-1] + (">" + alias if alias else "") if names else "unattributed"
+    return site, {"through-symlinked-dir": "via-symlinked-dir", "through-final-symlink": "via-final-symlink"}.get(h["how"], "direct")
+
+
+# helpers that only wrap one system call: the violation is named after their caller
+GENERIC = {"_remove_file_with_readonly_handling": "unlink", "build_file_from_blob": "write", "ensure_submodule_placeholder": "placeholder",
+           "_ensure_parent_dir_exists": "mkdirs", "_remove_empty_parents": "rmdirs", "symlink_wrapper": "symlink", "symlink_fallback": "symlink",
+           "symlink_fn": "symlink"}
 
 
 def case_sequence(acc, cfg, steps):
     """Replay: run the operations from the initial state; judge every step, report the first failure."""
     setup_process()
     steps = [(k, norm_spec(s) if s is not None else None) for k, s in steps]
-    S = fresh_dir("c17r")
+    S = confine.Sandbox(fresh_dir("c17r"))
     try:
         snapshot = initial_state(cfg, with_wt=steps[0][0] != "clone")
         hist = []
@@ -714,7 +741,7 @@ def case_sequence(acc, cfg, steps):
                 return
             hist.append(op)
     finally:
-        rmtree(S)
+        rmtree(S.root)
 
 
 # --------------------------------------------------------------------------- tree families
@@ -788,9 +815,34 @@ def fam_reuse(link_ids, file_kinds, nested_links, poison, poison_for=None, in_tr
 # --------------------------------------------------------------------------- level-parallel BFS
 
 
-def menu(feats, universe, tree_ops, plain_ops):
+def pmap_forked(fn, tasks, jobs):
+    """common.pmap, except that a single job also runs in a forked (privilege-dropped) child, so that
+    every transition of every run — any --jobs value, replay included — executes under the same user."""
+    tasks = list(tasks)
+    if jobs and jobs > 1 and len(tasks) > 1:
+        yield from pmap(fn, tasks, jobs=jobs)
+        return
+    import multiprocessing as mp
+
+    with mp.get_context("fork").Pool(1, initializer=common._pool_init) as pool:
+        for st, r in pool.imap(common._worker_entry, [(fn.__name__, fn.__module__, t) for t in tasks]):
+            if st == "err":
+                pool.terminate()
+                raise HarnessError("worker failed: " + r)
+            yield r
+
+
+
+BOOKKEEPING_ONLY = ("reset_soft", "reset_mixed")  # move HEAD / rewrite the index, never touch the work tree
+
+
+def menu(feats, universe, tree_ops, plain_ops, last=False):
+    """Operations offered in a state.  At the last level of a search the two bookkeeping-only
+    operations are left out: they only matter as state makers for a later operation."""
     if not feats["wt"]:
         return []
+    if last:
+        tree_ops = [k for k in tree_ops if k not in BOOKKEEPING_ONLY]
     ops = []
     for k in plain_ops:
         if k == "reset_index" and not feats["head"]:
@@ -812,6 +864,23 @@ def menu(feats, universe, tree_ops, plain_ops):
     return ops
 
 
+def work_prefix(task):
+    setup_process()
+    cfg, prefix = task
+    acc = Acc()
+    S = confine.Sandbox(fresh_dir("c17pre"))
+    snapshot = initial_state(cfg)
+    hist = []
+    for op in prefix:
+        snapshot, _r = transition(acc, cfg, snapshot, hist, op, S)
+        if snapshot is None:
+            raise HarnessError("prefix %r violates the property: %r" % (prefix, list(acc.viol)))
+        hist.append(op)
+    key, feats = state_key(os.fsdecode(S.root), snapshot)
+    rmtree(S.root)
+    return acc, snapshot, key, feats
+
+
 def _store_path(store, key, hist):
     return os.path.join(store, "%s-%s.pkl" % (key, hashlib.sha1(repr(hist).encode()).hexdigest()[:16]))
 
@@ -820,8 +889,9 @@ def work_level(task):
     """Expand a list of nodes.  node = (state file | inline snapshot, feats, history)."""
     setup_process()
     cfg, nodes, universe, tree_ops, plain_ops, store, keep, explicit_ops = task
+    last = not keep
     acc = Acc()
-    S = fresh_dir("c17w")
+    S = confine.Sandbox(fresh_dir("c17w"))
     best = {}
     try:
         for ref, feats, hist in nodes:
@@ -830,18 +900,18 @@ def work_level(task):
                     snapshot = pickle.load(f)
             else:
                 snapshot = ref
-            ops = explicit_ops if explicit_ops is not None else menu(feats, universe, tree_ops, plain_ops)
+            ops = explicit_ops if explicit_ops is not None else menu(feats, universe, tree_ops, plain_ops, last)
             for op in ops:
                 after, res = transition(acc, cfg, snapshot, hist, op, S)
                 if after is None:
                     continue
-                key, nf = state_key(S, after)
+                key, nf = state_key(os.fsdecode(S.root), after)
                 h2 = list(hist) + [op]
                 cur = best.get(key)
                 if cur is None or repr(h2) < repr(cur[1]):
                     best[key] = (after if keep else None, h2, nf)
     finally:
-        rmtree(S)
+        rmtree(S.root)
     found = []
     for key in sorted(best):
         snapshot, h2, nf = best[key]
@@ -866,14 +936,9 @@ def bfs(ctx, label, cfg, universe, tree_ops, plain_ops, max_depth, first_ops=Non
     feats0 = {"head": False, "stash": False, "am": False, "wt": with_wt}
     hist0 = []
     if prefix:
-        S = fresh_dir("c17pre")
-        for op in prefix:
-            init, _r = transition(ctx.acc, cfg, init, hist0, op, S)
-            if init is None:
-                raise HarnessError("prefix %r violates the property: %r" % (prefix, list(ctx.acc.viol)))
-            hist0.append(op)
-        key0, feats0 = state_key(S, init)
-        rmtree(S)
+        (acc0, init, key0, feats0), = list(pmap_forked(work_prefix, [(cfg, list(prefix))], 1))
+        ctx.acc.merge(acc0)
+        hist0 = list(prefix)
         seen = {key0}
     else:
         seen = {state_key(None, init)[0]}
@@ -891,14 +956,14 @@ def bfs(ctx, label, cfg, universe, tree_ops, plain_ops, max_depth, first_ops=Non
         elif len(level) < ctx.jobs * 2:
             # few nodes: split the menu instead of the node list
             for node in level:
-                ops = menu(node[1], universe, tree_ops, plain_ops)
+                ops = menu(node[1], universe, tree_ops, plain_ops, not keep)
                 for part in split(ctx.order(ops), ctx.jobs * 3):
                     tasks.append((cfg, [node], None, None, None, store, keep, part))
         else:
             for part in split(ctx.order(level), ctx.jobs * 4):
                 tasks.append((cfg, part, universe, tree_ops, plain_ops, store, keep, None))
         best = {}
-        for acc, found in pmap(work_level, tasks, jobs=ctx.jobs):
+        for acc, found in pmap_forked(work_level, tasks, ctx.jobs):
             ctx.acc.merge(acc)
             for key, path, nf, hist in found:
                 if key in seen:
@@ -981,16 +1046,14 @@ def run(ctx):
     stats = []
 
     all_links = ["L:" + t for t in LINK_IDS]
-    few = ["f", "L:updir", "L:hooks", "G"]
+    few = ["f", "L:updir", "G"]
     mid = ["f", "x", "f4755", "f0666", "L:updir", "L:absdir", "L:upfile", "L:gitfile", "L:gitnew", "G"]
 
     # ---- A. refusal matrix: ONE checkout of every adversarial tree through every entry point
-    famA = fam_single(LEAF_KINDS)
-    famA += fam_nested(NAMES, NAMES, few if q else LEAF_KINDS)
-    famA += fam_same_name(mid if q else LEAF_KINDS)
-    famA += fam_slash_name(mid if q else LEAF_KINDS)
-    famA += fam_pairs([b"a", b".git", b"git~1", b"dir"] if q else [b"a", b"dir", b".git", b".GIT", b"git~1", b"..", b"a/b", ABSNAME], few if q else mid)
-    famA = _dedupe(famA)
+    famNames = _dedupe(fam_single(LEAF_KINDS) + fam_nested(NAMES, NAMES, few if q else mid))  # the names matrix
+    famShapes = fam_same_name(mid if q else LEAF_KINDS) + fam_slash_name(mid if q else LEAF_KINDS)
+    famShapes += fam_pairs([b"a", b".git", b"git~1", b"dir"] if q else [b"a", b"dir", b".git", b".GIT", b"git~1", b"..", b"a/b", ABSNAME], few if q else mid)
+    famA = _dedupe(famNames + famShapes)
     entryA = ["checkout", "reset_hard", "stash_apply", "patch_add", "am"] if q else \
         ["checkout", "checkout_force", "switch", "reset_hard", "stash_apply", "patch_add", "patch_del", "am"]
     unbornA = ["checkout"] if q else ["checkout", "reset_hard"]
@@ -998,11 +1061,18 @@ def run(ctx):
     base = (("reset_soft", ()),)  # HEAD = a commit of the empty tree, nothing checked out
     # clone: fresh directory, default configuration (a clone cannot carry a repository-local configuration)
     stats.append(bfs(ctx, "A-clone", "default", None, None, None, 1, first_ops=single_step_ops(famA, ["clone"]), with_wt=False))
+    planA = []
     for cfg in cfgsA:
-        stats.append(bfs(ctx, "A-entry-points", cfg, None, None, None, 1, first_ops=single_step_ops(famA, entryA), prefix=base))
-        stats.append(bfs(ctx, "A-unborn-HEAD", cfg, None, None, None, 1, first_ops=single_step_ops(famA, unbornA)))
+        full = cfg == "default"  # the other configurations: fewer entry points (quick: and only the names matrix)
+        trees = famA if (full or not q) else famNames
+        eps = entryA if full else (["checkout", "stash_apply", "patch_add"] if q else ["checkout", "reset_hard", "stash_apply", "patch_add", "am"])
+        planA.append({"config": cfg, "trees": len(trees), "entry_points": eps, "unborn": unbornA if full else [], "reset_index": True})
+        stats.append(bfs(ctx, "A-entry-points", cfg, None, None, None, 1, first_ops=single_step_ops(trees, eps), prefix=base))
+        if full:
+            stats.append(bfs(ctx, "A-unborn-HEAD", cfg, None, None, None, 1, first_ops=single_step_ops(trees, unbornA)))
         # reset --soft T ; WorkTree.reset_index()  == the tail of a clone, under every configuration
-        stats.append(bfs_pairs(ctx, "A-reset_index", cfg, [[("reset_soft", t), ("reset_index", None)] for t in famA]))
+        stats.append(bfs_pairs(ctx, "A-reset_index", cfg, [[("reset_soft", t), ("reset_index", None)] for t in trees]))
+    ctx.coverage["family_A"] = planA
 
     # ---- B. sequences: the same names come back with a different kind, through every entry point
     planB = []
@@ -1011,9 +1081,11 @@ def run(ctx):
         planB.append(("B-depth3", "default", fam_reuse(["updir", "gitfile"], ["f"], [], [POISON], poison_for=("L:updir",), in_tree=False),
                       ["checkout", "checkout_force", "reset_hard", "reset_mixed", "reset_soft", "stash_apply", "patch_add"], 3))
     else:
-        uniT = fam_reuse(LINK_IDS, ["f", "x"], ["updir"], [POISON, POISON_NESTED], poison_for=("f", "L:updir", "L:gitfile", "D"))
-        planB.append(("B-depth3", "default", uniT, TREE_OPS, 3))
-        planB.append(("B-depth2", "ntfs-off", fam_reuse(LINK_IDS, list(FILE_MODES), ["updir", "gitfile"], [POISON, POISON_NESTED]), TREE_OPS, 2))
+        planB.append(("B-depth3", "default", fam_reuse(["updir", "absdir", "upfile", "hooks", "gitfile", "gitnew"], ["f"], ["updir"], [POISON],
+                                                      poison_for=("L:updir", "D")), TREE_OPS, 3))
+        planB.append(("B-depth2", "default", fam_reuse(LINK_IDS, list(FILE_MODES), ["updir", "gitfile"], [POISON, POISON_NESTED]), TREE_OPS, 2))
+        planB.append(("B-depth2", "ntfs-off", fam_reuse(LINK_IDS, ["f", "x"], ["updir"], [POISON, POISON_NESTED],
+                                                       poison_for=("f", "L:updir", "L:gitfile", "D")), TREE_OPS, 2))
     for label, cfg, uni, tops, depth in planB:
         stats.append(bfs(ctx, label, cfg, uni, tops, PLAIN_OPS, depth, prefix=base))
     uniB = planB[0][2]
@@ -1034,8 +1106,8 @@ def run(ctx):
              "a transition restores the state, runs one real dulwich operation on a tree built from raw bytes and compares recursive snapshots "
              "of everything outside the work tree and of .git minus the bookkeeping allow-list; unsafe paths judged by an independent model "
              "cross-checked against C git.",
-        bounds={"names": len(NAMES), "leaf_kinds": len(LEAF_KINDS), "configs_A": cfgsA, "entry_points_A": ["clone", "reset_index"] + entryA,
-                "entry_points_A_unborn_HEAD": unbornA},
+        bounds={"names": len(NAMES), "leaf_kinds": len(LEAF_KINDS), "link_targets": len(LINK_IDS), "max_entries_per_level": 2, "max_tree_depth": 2,
+                "family_A_trees": len(famA), "family_A_names_matrix": len(famNames)},
     )
     for s in famA[:3] + uniB[:3]:
         ctx.acc.sample(show(s))
@@ -1087,54 +1159,50 @@ def _dedupe(seq):
 
 
 def work_prefixed(task):
-    """Run explicit sequences: a fixed prefix (not judged again for each continuation beyond the first
-    time) then one judged operation each."""
+    """Run explicit sequences from the initial state, judging every step."""
     setup_process()
-    cfg, prefix, ops, seqs = task
+    cfg, seqs = task
     acc = Acc()
-    S = fresh_dir("c17p")
+    S = confine.Sandbox(fresh_dir("c17p"))
     keys = set()
     try:
-        if seqs is not None:
-            for seq in seqs:
-                snapshot = initial_state(cfg)
-                hist = []
-                for op in seq:
-                    snapshot, _r = transition(acc, cfg, snapshot, hist, op, S)
-                    if snapshot is None:
-                        break
-                    hist.append(op)
-                if snapshot is not None:
-                    keys.add(state_key(S, snapshot)[0])
-        else:
-            base = initial_state(cfg)
+        for seq in seqs:
+            snapshot = initial_state(cfg)
             hist = []
-            sub = Acc()
-            for op in prefix:
-                base, _r = transition(sub, cfg, base, hist, op, S)
-                if base is None:
-                    raise HarnessError("prefix %r violated the property: %r" % (prefix, sub.viol))
+            for op in seq:
+                snapshot, _r = transition(acc, cfg, snapshot, hist, op, S)
+                if snapshot is None:
+                    break
                 hist.append(op)
-            for op in ops:
-                after, _r = transition(acc, cfg, base, hist, op, S)
-                if after is not None:
-                    keys.add(state_key(S, after)[0])
+            if snapshot is not None:
+                keys.add(state_key(os.fsdecode(S.root), snapshot)[0])
     finally:
-        rmtree(S)
+        rmtree(S.root)
     return acc, keys
 
 
 def bfs_pairs(ctx, label, cfg, seqs):
     keys = set()
-    tasks = [(cfg, None, None, part) for part in split(ctx.order(seqs), ctx.jobs * 3)]
-    for acc, k in pmap(work_prefixed, tasks, jobs=ctx.jobs):
+    tasks = [(cfg, part) for part in split(ctx.order(seqs), ctx.jobs * 3)]
+    for acc, k in pmap_forked(work_prefixed, tasks, ctx.jobs):
         ctx.acc.merge(acc)
         keys |= k
     return {"search": label, "config": cfg, "sequences": len(seqs), "states": len(keys), "depth_completed": 2, "capped": False}
 
 
-def replay(ctx, obj):
-    from engines.common import replay_generic
+def work_replay(task):
+    from engines.common import Ctx, replay_generic
 
+    setup_process()
+    prop, tier, seed, obj = task
+    rc = replay_generic(sys.modules[__name__], Ctx(prop, tier, seed, 1), obj)
+    sys.stdout.flush()
+    return rc
+
+
+def replay(ctx, obj):
     common.preload_rust()
-    return replay_generic(sys.modules[__name__], ctx, obj)
+    setup_process()
+    warmup()
+    rc, = list(pmap_forked(work_replay, [(ctx.prop, ctx.tier, ctx.seed, obj)], 1))
+    return rc
